@@ -15,7 +15,13 @@ pub fn check(sc: &Scenario, res: &RunResult) -> Vec<Violation> {
             // request that fails on it means the region does not appear
             let k = &d.kernel_after;
             let undisturbed = sc.events.is_empty() && !k.dead && sc.faults.iter().all(|f| matches!(f.trig.kind, CallKind::Vmreadv) || (f.trig.kind == CallKind::Open && f.trig.path.as_deref() == Some("/mem")));
-            if undisturbed && e.contains("SectionAppMemoryError") && !opts.app_memory.is_empty() && opts.app_memory.iter().all(|(p, l)| *l > 0 && k.accessible_run(*p, *l, true) == *l) {
+            // which strategies can reach a region: the vectored read needs pages the target can read, the
+            // memory file and ptrace do not, but ptrace needs the blamed thread to be the writer's tracee
+            let vm_ok = !sc.faults.iter().any(|f| f.trig.kind == CallKind::Vmreadv);
+            let file_ok = !sc.faults.iter().any(|f| f.trig.kind == CallKind::Open);
+            let peek_ok = k.world.threads.iter().find(|t| t.tid == opts.blamed).map(|t| !t.foreign_tracer && !t.zombie).unwrap_or(false);
+            let reachable = |p: u64, l: u64| (vm_ok && k.accessible_run(p, l, false) == l) || ((file_ok || peek_ok) && k.accessible_run(p, l, true) == l);
+            if undisturbed && e.contains("SectionAppMemoryError") && !opts.app_memory.is_empty() && opts.app_memory.iter().all(|(p, l)| *l > 0 && reachable(*p, *l)) {
                 out.push(v("C07", "app-region-request-failed", format!("every requested region lies wholly in the target's memory, but the request failed: {}", e.chars().take(200).collect::<String>())));
             }
         }
@@ -77,7 +83,14 @@ pub fn check(sc: &Scenario, res: &RunResult) -> Vec<Violation> {
     if let Some(cs) = &opts.crash {
         let listed = dec.threads.as_ref().map(|ts| ts.iter().any(|t| t.tid == opts.blamed as u32)).unwrap_or(false);
         let ip = cs.gregs[crate::profiles::REG_RIP] as u64;
-        if listed {
+        // also when the blamed thread is alive but could not be attached to (and is therefore not
+        // listed): its memory is readable without attaching, through the vectored read or the memory file
+        let unattached_but_readable = !listed
+            && k.world.threads.iter().any(|t| t.tid == opts.blamed && !t.zombie)
+            && k.thread_idx(opts.blamed).map(|i| k.threads[i].life == crate::kernel::Life::Alive).unwrap_or(false)
+            && sc.events.is_empty()
+            && !sc.faults.iter().any(|f| f.trig.kind == CallKind::Vmreadv);
+        if listed || unattached_but_readable {
             if let Some((lo, hi)) = util::mapping_hull(w, ip) {
                 let a = lo.max(ip.saturating_sub(128));
                 let b = hi.min(ip.saturating_add(128));
